@@ -108,5 +108,22 @@ LEVEL_NOTE = ("C07_numb_in_list is proved at full strength (numbers from parse_n
               "abstraction, translator extension, SQLite's faithful storage of bound values, executors/oracles.")
 TECHNIQUE = "Lean 4 proof (mutual structural induction with cost-bounded fuel; invariant of the write buffer) + differential execution"
 
-# ---- independent review rA (notes/review/rA-review.md) ----
-LEAN_MODULES += ["CifModel.Props.ReviewRC07"]
+# ---- group gX: route `parser` in the real composed state; review rA on C07_parser_route ----
+LEAN_MODULES += ["CifModel.Lemmas.ParserStoreSim", "CifModel.Lemmas.ParserStoreRun", "CifModel.Lemmas.ParserStoreSimF",
+                 "CifModel.Lemmas.ParserStoreRunF", "CifModel.Lemmas.ParserTraceShape", "CifModel.Props.ReviewRC07"]
+REQUIRED += ["CifModel.C07_parser_route_store", "CifModel.C07_parser_route_store_partial", "CifModel.ParserSimF.rep_setVal_reads",
+             "CifModel.ParserSimF.reads_new", "CifModel.ParserSimF.reads_existing", "CifModel.ParserSimF.prefix_rep",
+             "CifModel.ParserSim.rep_setVal_reads", "CifModel.ParserSim.prefix_rep"]
+PARTIAL += [
+    "group gX — route `parser` in the REAL COMPOSED STATE (review rA: C07_parser_route quantifies over an arbitrary InvS state, handle and name "
+    "unrelated to the call's path): C07_parser_route_store — for EVERY parse into a new CIF (save frames included) and its j-th recorded "
+    "cif_container_set_value(path, n, v): the j calls before it have a translation (storeOpsFrom) and, run through Store.step behind "
+    "cif_create, give the state in which the parser makes the call (ParserSimF.prefix_rep: every such state is represented: WOk, handle "
+    "tables, Store.abs = replay); there is a container handle h with: set_value h n v in contract, CIF_OK, the next state shows exactly the "
+    "parser model's next target (so h is the container at `path`), and get_value h n then delivers v (rc CIF_OK or CIF_AMBIGUOUS_ITEM) — "
+    "when the item is new to the container (the parser's normal path) or its loop has a packet.  The store model of Store.step keeps values "
+    "as they are (no codec): the codec round trip is C07_stored_read_identical / C07_parser_route, unchanged.  NOT covered: pre-existing "
+    "targets (see C03), the packet values of cif_loop_add_packet in the composed state (C07_parser_route's addPkt arm stays about an "
+    "arbitrary InvS state), and that the parser never calls set_value for an item that exists (hypothesis `new or has a packet`).",
+]
+# ---- independent review rA (notes/review/rA-review.md): CifModel.Props.ReviewRC07 is listed in group gX's LEAN_MODULES above ----
